@@ -7,6 +7,8 @@ import (
 	"go/types"
 	"strings"
 
+	"golang.org/x/tools/go/ssa"
+
 	"verif/checker/core"
 )
 
@@ -433,4 +435,122 @@ func checkListenerAdapterState(c *core.Ctx) {
 	if n == 0 {
 		c.Undecided("R20.13", "listener adapters of package experimental", 0, "none found")
 	}
+}
+
+// checkCloseReachesHostObject (R16.8): the Close method of a sysfs file type closes the host object it wraps (socket, OS file):
+// from Close, a call of Close on the value of the wrapping field is reachable inside the package.
+func checkCloseReachesHostObject(c *core.Ctx) {
+	c.SSA()
+	fns := moduleFns(c, "internal/sysfs")
+	byRecv := map[*types.Named]map[string]*ssaFunc{}
+	for _, fn := range fns {
+		if fn.Parent() != nil || fn.Signature.Recv() == nil {
+			continue
+		}
+		rn := core.NamedOf(fn.Signature.Recv().Type())
+		if rn == nil {
+			continue
+		}
+		if byRecv[rn] == nil {
+			byRecv[rn] = map[string]*ssaFunc{}
+		}
+		byRecv[rn][fn.Name()] = fn
+	}
+	n := 0
+	for rn, methods := range byRecv {
+		closeFn := methods["Close"]
+		st, ok := rn.Underlying().(*types.Struct)
+		if closeFn == nil || !ok {
+			continue
+		}
+		// fields holding a host object: a type from net or os (or io/fs.File) with a Close method
+		for i := 0; i < st.NumFields(); i++ {
+			ft := st.Field(i).Type()
+			ts := ft.String()
+			if !(strings.HasPrefix(ts, "*net.") || strings.HasPrefix(ts, "*os.File") || ts == "io/fs.File" || strings.HasPrefix(ts, "net.")) {
+				continue
+			}
+			if ms := types.NewMethodSet(ft); ms.Lookup(nil, "Close") == nil {
+				continue
+			}
+			n++
+			// reachability from Close over static callees within the receiver's methods
+			seen := map[*ssaFunc]bool{}
+			var reaches func(fn *ssaFunc, depth int) bool
+			reaches = func(fn *ssaFunc, depth int) bool {
+				if fn == nil || seen[fn] || depth > 4 {
+					return false
+				}
+				seen[fn] = true
+				for _, b := range fn.Blocks {
+					for _, in := range b.Instrs {
+						call, ok := in.(ssaCallInstr)
+						if !ok {
+							continue
+						}
+						cc := call.Common()
+						name := ""
+						var recvVal ssaValue
+						if cc.IsInvoke() {
+							name, recvVal = cc.Method.Name(), cc.Value
+						} else if sc := cc.StaticCallee(); sc != nil {
+							name = sc.Name()
+							if len(cc.Args) > 0 {
+								recvVal = cc.Args[0]
+							}
+							if sc.Signature.Recv() != nil && core.NamedOf(sc.Signature.Recv().Type()) == rn && sc != fn {
+								if reaches(sc, depth+1) {
+									return true
+								}
+							}
+						}
+						if name == "Close" && recvVal != nil && loadedFromField(recvVal, rn, i) {
+							return true
+						}
+					}
+				}
+				return false
+			}
+			ok2 := reaches(closeFn, 0)
+			c.Check(ok2, "R16.8", "sysfs."+rn.Obj().Name()+".Close closes the host object in field "+st.Field(i).Name(), closeFn.Pos(),
+				"a call of Close on the field's value is reachable from Close",
+				"no call of Close on "+rn.Obj().Name()+"."+st.Field(i).Name()+" is reachable from "+rn.Obj().Name()+".Close (the methods only mark the file closed or call each other): fd_close never releases the host socket / file, the peer of a connection gets no EOF, descriptors live until a finalizer runs")
+		}
+	}
+	if n == 0 {
+		c.Undecided("R16.8", "sysfs file types wrapping a host object", 0, "none found")
+	}
+}
+
+type (
+	ssaFunc      = ssa.Function
+	ssaValue     = ssa.Value
+	ssaCallInstr = ssa.CallInstruction
+)
+
+// loadedFromField: v is (a conversion of) a load of field i of a value of the named struct type.
+func loadedFromField(v ssa.Value, named *types.Named, field int) bool {
+	for d := 0; d < 6 && v != nil; d++ {
+		switch x := v.(type) {
+		case *ssa.UnOp:
+			if fa, ok := x.X.(*ssa.FieldAddr); ok {
+				return fa.Field == field && core.NamedOf(fa.X.Type()) == named
+			}
+			return false
+		case *ssa.Field:
+			return x.Field == field && core.NamedOf(x.X.Type()) == named
+		case *ssa.FieldAddr:
+			// a promoted method: the receiver is an embedded part of the loaded value (e.g. &tc.conn of *net.TCPConn)
+			v = x.X
+		case *ssa.ChangeInterface:
+			v = x.X
+		case *ssa.MakeInterface:
+			v = x.X
+		case *ssa.ChangeType:
+			v = x.X
+		default:
+			return false
+		}
+	}
+	return false
 }
